@@ -16,13 +16,13 @@ RULE = ("Hypothesis: well-formed notes on 2 channels over 2-3 pitches (same pitc
         "velocities and the non-note events with ticks equal the source's; source content unchanged in both views. "
         "Non-trivial: a note crosses a boundary or an event sits exactly on a boundary. Distinct by case digest.")
 ASSUMPTIONS = ["an event exactly on a boundary may be in either adjacent piece (same absolute tick)"]
-TIERS = {"quick": dict(shards=8, examples=1500), "thorough": dict(shards=16, examples=25000)}
+TIERS = {"quick": dict(shards=8, examples=1500), "thorough": dict(size=2, shards=16, examples=25000)}
 
 
 @st.composite
-def _case(draw):
+def _case(draw, size=1):
     pitches = draw(st.sampled_from([(60, 61), (60, 61, 62), (60,)]))
-    notes = draw(gens.wellformed_notes(channels=(0, 1), pitches=pitches, max_notes=8, max_len=70, max_gap=30))
+    notes = draw(gens.wellformed_notes(channels=(0, 1), pitches=pitches, max_notes=8 * size, max_len=70, max_gap=30))
     end_n = max([n[3] for n in notes] + [0])
     ticks_pool = sorted({0, end_n} | {n[2] for n in notes} | {n[3] for n in notes})
     meta = draw(st.one_of(gens.meta_events(max_tick=max(end_n, 1), max_events=3, with_noise=True),
@@ -48,7 +48,8 @@ def _case(draw):
 
 
 def strategy(params, shard, nshards):
-    return _case()
+    # thorough tier: odd shards draw larger cases (size 2), even shards keep the small, dense ones
+    return _case(size=params.get("size", 1) if shard % 2 else 1)
 
 
 def check(case):
